@@ -2194,7 +2194,22 @@ class C11(fw.Check):
         "clone_tree_equal_illtyped_counterexample",
         "export_leaf_chain_repeated_ids",
         "clone_inherits_nothing",
-        "clone_inherits_nothing_template"]]
+        "clone_inherits_nothing_template",
+        "record_dicts_never_written",
+        "clone_makes_no_dict",
+        "clone_shares_record",
+        "edit_copy_preserves_original_record",
+        "edit_original_preserves_copy_record",
+        "record_independent_reachable",
+        "unmerge_original_unaffected_by_copy_edits",
+        "unmerge_copy_unaffected_by_original_edits",
+        "merge_original_unaffected_by_copy_edits",
+        "merge_copy_unaffected_by_original_edits",
+        "edit_export_preserves_original_record",
+        "edit_original_preserves_export_record",
+        "unmerge_copy_then_original_witness",
+        "unmerge_in_place_counterexample",
+        "merge_in_place_counterexample"]]
     case_timeout = 30
     trusted_base = [
         "Lean 4.33.0 kernel; axioms propext, Classical.choice, Quot.sound only (audited per theorem)",
@@ -2753,6 +2768,175 @@ class C11(fw.Check):
 
     def finding_key(self, case, obs, failure):
         return None
+
+
+# ============================================================================= RECORD TIE
+# Added 2026-09-30 (proof extension: the record of a merge, `_merged_attrs`, in the model).
+# NOT WIRED INTO THE CHECK: nothing above calls anything below. For the coordinator to wire in.
+#
+# The model (Model/Clone.lean) has the dicts `_merged_attrs` as a fourth address space and the driver
+# (Driver/C11.lean) speaks about them when the request carries "rec": true:
+#   * every init entry of a Section may carry  "ma": rec_items(sec)   and  "mc": <class number>
+#     (objects whose `_merged_attrs` IS the same dict get the same number: rec_classes);
+#   * every Section node of every snapshot of the answer carries "ma" (items, sorted) and "mc" (address of
+#     the dict; number by first occurrence with rec_canon before comparing);
+#   * two more ops:  {"o": "merge_attrs", "x": i, "s": j, "record": b}   for `objs[i].merge(objs[j],
+#     strict=False)` when rec_merge_modelled(x, s) - `s` has no children - with b = rec_record_flag(x)
+#     taken BEFORE the call;  {"o": "unmerge_attrs", "x": i}  for `objs[i].unmerge(t)` when
+#     rec_unmerge_modelled(x, t) - `t` has no children, `x._link` is None, `x != t`.
+# To tie the merge / unmerge / clean steps of the free+cf stream: World.tree would add rec_node_fields(obj)
+# to Section nodes, World.init_table would add "ma"/"mc", model_requests would send "rec": True and
+# translate the free ops `merge` / `unmerge` / `clean` (of a Section whose `_merged` is childless) into the
+# two ops when the predicates hold (and stop the modelled prefix otherwise, as it does at a free op now),
+# compare would apply rec_canon to both snapshots. record_tie_selftest() does all that on a fixed history.
+REC_POS = {"definition": 1, "reference": 2}          # SEC_KEYS positions
+
+
+def rec_items(sec):
+    """`_merged_attrs` in the vocabulary of the model: [[attribute position, repr(value)] ...], sorted."""
+    d = getattr(sec, "_merged_attrs", None) or {}
+    return sorted([REC_POS[k], repr(v)] for k, v in d.items() if k in REC_POS)
+
+
+def rec_classes(objs):
+    """table index -> class number; two Sections are in one class iff they hold the SAME dict."""
+    seen, out = {}, {}
+    for i, o in enumerate(objs):
+        if kind_of(o) == "sec":
+            out[i] = seen.setdefault(id(getattr(o, "_merged_attrs", None)), len(seen))
+    return out
+
+
+def rec_node_fields(sec):
+    return {"ma": rec_items(sec), "mc": id(getattr(sec, "_merged_attrs", None))}
+
+
+def rec_canon(snap):
+    """Numbers "mc" by first occurrence (roots in table order, node, sections, properties)."""
+    seen = {}
+
+    def walk(node):
+        out = dict(node)
+        if "mc" in out:
+            out["mc"] = seen.setdefault(node["mc"], len(seen))
+        out["s"] = [walk(x) for x in node["s"]]
+        out["p"] = [walk(x) for x in node["p"]]
+        return out
+    return {"roots": {k: walk(snap["roots"][k]) for k in sorted(snap["roots"], key=int)},
+            "lists": snap["lists"]}
+
+
+def rec_record_flag(sec):
+    """What the public `merge` passes on as `record` (to be taken before the call)."""
+    return not (sec._merged is not None and sec.can_be_merged)
+
+
+def rec_merge_modelled(x, s):
+    return (kind_of(x) == "sec" and kind_of(s) == "sec" and len(s.sections) == 0
+            and len(s.properties) == 0)
+
+
+def rec_unmerge_modelled(x, t):
+    if not (kind_of(x) == "sec" and kind_of(t) == "sec"):
+        return False
+    return (len(t.sections) == 0 and len(t.properties) == 0 and x._link is None and not (x == t))
+
+
+def record_tie_selftest(verbose=False):
+    """A fixed history on the real library and on the model, compared step by step, records included.
+    Returns the list of differences (empty = agreement).  `python harness/c11.py`-independent:
+        /venv/bin/python -c "import sys; sys.path.insert(0,'harness'); import c11; print(c11.record_tie_selftest())"
+    """
+    import io
+    import json
+    import subprocess
+    import contextlib
+    import odml
+    drv = os.path.join(os.path.dirname(os.path.abspath(__file__)), "..", "lean", ".lake", "build", "bin", "drv_c11")
+    w = World()
+
+    class RecWorld(World):
+        def tree(self, obj, depth=0):
+            node = World.tree(self, obj, depth)
+            if node["k"] == "sec":
+                node.update(rec_node_fields(obj))
+            return node
+    w = RecWorld()
+    sink = io.StringIO()
+    with contextlib.redirect_stdout(sink), contextlib.redirect_stderr(sink):
+        doc = odml.Document(author="me")
+        s = odml.Section(name="s", type="t", parent=doc)
+        tgt = odml.Section(name="tgt", type="t", parent=doc, definition="D", reference="R")
+        own = odml.Section(name="own", type="t", parent=doc, definition="X")
+        odml.Property(name="p", values=[1, 2], parent=s)
+        w.register_tree(doc, "orig")
+        init = w.init_table()
+        cls = rec_classes(w.objs)
+        for i, ent in enumerate(init):
+            if ent["kind"] == "sec":
+                ent["ma"] = rec_items(w.objs[i])
+                ent["mc"] = cls[i]
+        ids = {}
+        for ent in init:
+            ent["id"] = ids.setdefault(ent["id"], len(ids))
+        snaps = [w.snap()]
+        ops = []
+
+        def do(op, fn):
+            ops.append(op)
+            ret = fn()
+            if op["o"] in ("clone", "export"):
+                w.register_tree(ret, "copy")
+            snaps.append(w.snap())
+            return ret
+        ix = w.idx
+        do({"o": "merge_attrs", "x": ix(s), "s": ix(tgt), "record": rec_record_flag(s)},
+           lambda: s.merge(tgt, strict=False))
+        c = do({"o": "clone", "x": ix(s), "children": True, "keep": False}, lambda: s.clone())
+        assert rec_unmerge_modelled(c, tgt)
+        do({"o": "unmerge_attrs", "x": ix(c)}, lambda: c.unmerge(tgt))
+        do({"o": "set_attr", "x": ix(c), "i": 1, "v": repr("Z")}, lambda: setattr(c, "definition", "Z"))
+        do({"o": "merge_attrs", "x": ix(c), "s": ix(tgt), "record": rec_record_flag(c)},
+           lambda: c.merge(tgt, strict=False))
+        c2 = do({"o": "clone", "x": ix(c), "children": True, "keep": True}, lambda: c.clone(keep_id=True))
+        do({"o": "unmerge_attrs", "x": ix(s)}, lambda: s.unmerge(tgt))
+        do({"o": "merge_attrs", "x": ix(own), "s": ix(tgt), "record": rec_record_flag(own)},
+           lambda: own.merge(tgt, strict=False))
+        c3 = do({"o": "clone", "x": ix(doc), "children": True, "keep": False}, lambda: doc.clone())
+        own3 = [x for x in c3.sections if x.name == "own"][0]
+        do({"o": "unmerge_attrs", "x": ix(own3)}, lambda: own3.unmerge(tgt))
+        do({"o": "unmerge_attrs", "x": ix(c2)}, lambda: c2.unmerge(tgt))
+        do({"o": "unmerge_attrs", "x": ix(own)}, lambda: own.unmerge(tgt))
+        # the record written AFTER the copy was made; a copy handed out by export_leaf
+        c4 = do({"o": "clone", "x": ix(s), "children": False, "keep": True}, lambda: s.clone(children=False, keep_id=True))
+        do({"o": "merge_attrs", "x": ix(c4), "s": ix(tgt), "record": rec_record_flag(c4)},
+           lambda: c4.merge(tgt, strict=False))
+        do({"o": "merge_attrs", "x": ix(s), "s": ix(tgt), "record": rec_record_flag(s)},
+           lambda: s.merge(tgt, strict=False))
+        e = do({"o": "export", "x": ix(s)}, lambda: s.export_leaf())
+        es = e.sections[0]
+        do({"o": "unmerge_attrs", "x": ix(es)}, lambda: es.unmerge(tgt))
+        do({"o": "unmerge_attrs", "x": ix(s)}, lambda: s.unmerge(tgt))
+        do({"o": "unmerge_attrs", "x": ix(c4)}, lambda: c4.unmerge(tgt))
+    req = {"p": "C11", "rec": True, "init": init, "ops": ops}
+    proc = subprocess.run([drv], input=json.dumps(req) + "\n", capture_output=True, text=True, timeout=60)
+    ans = json.loads(proc.stdout.splitlines()[0])
+    if "err" in ans:
+        return ["driver: " + ans["err"]]
+    out = []
+    msteps = ans["r"]["steps"]
+    if len(msteps) != len(snaps):
+        return ["%d model steps, %d implementation steps" % (len(msteps), len(snaps))]
+    for i, (isnap, mst) in enumerate(zip(snaps, msteps)):
+        a = fw.canon(rec_canon(canon_ids(isnap)))
+        b = fw.canon(rec_canon(canon_ids(mst["snap"])))
+        if verbose:
+            print(i, ops[i - 1] if i else None, "\n  ", a, "\n  ", b)
+        if a != b:
+            out.append("step %d %s: implementation %s model %s" % (i, ops[i - 1] if i else None, a, b))
+            break
+    return out
+# ============================================================================= end of RECORD TIE
 
 
 if __name__ == "__main__":
